@@ -351,7 +351,7 @@ def fixtures(base: str) -> Dict[str, str]:
 
 def origin_cert(paths: Dict[str, str], name: str, kind: str) -> Dict[str, str]:
     """Certificate + key for an origin called `name` (DNS name or IP literal).
-    kind: good | selfsigned | wrongname | expired | oddsubject.  Cached per (name, kind)."""
+    kind: good | selfsigned | wrongname | expired | oddsubject | emptysubject.  Cached per (name, kind)."""
     d = paths['dir']
     tag = '%s-%s' % (name.replace(':', '_'), kind)
     crt = os.path.join(d, 'o-%s.pem' % tag)
@@ -380,6 +380,8 @@ def origin_cert(paths: Dict[str, str], name: str, kind: str) -> Dict[str, str]:
         # an otherwise perfectly good certificate whose organisation name contains the characters that separate fields in
         # openssl's -subj syntax
         subj = '/O=Odd\\/Org\\+Co/CN=%s' % cn
+    if kind == 'emptysubject':
+        subj = '/'          # no subject at all: the name is in the subjectAltName only (RFC 5280 allows it)
     _run([o, 'req', '-new', '-key', 'origin-key.pem', '-out', csr, '-subj', subj], d)
     if kind == 'expired':
         # `openssl ca` takes explicit validity dates on every OpenSSL 1.1 / 3.x (x509 -days -1 is refused by some builds)
